@@ -113,8 +113,9 @@ def load_known():
 def finish(R, level, explanation, rule_text, checker_cmd):
     """Write evidence, print VIOLATION / KNOWN-FINDING lines, return exit code."""
     known, _fixed = load_known()
-    os.makedirs(os.path.join(VERIF, "evidence"), exist_ok=True)
-    replay_dir = os.path.join(VERIF, "evidence", "replay", R.prop)
+    evdir = os.environ.get("VERIF_EVIDENCE_DIR") or os.path.join(VERIF, "evidence")
+    os.makedirs(evdir, exist_ok=True)
+    replay_dir = os.path.join(evdir, "replay", R.prop)
     os.makedirs(replay_dir, exist_ok=True)
     for fn in os.listdir(replay_dir):
         os.unlink(os.path.join(replay_dir, fn))
@@ -167,7 +168,7 @@ def finish(R, level, explanation, rule_text, checker_cmd):
         "violations": unsuppressed,
         "known_findings": [v["key"] for v in R.violations if v.get("known")],
     }
-    with open(os.path.join(VERIF, "evidence", "%s.json" % R.prop), "w") as fh:
+    with open(os.path.join(evdir, "%s.json" % R.prop), "w") as fh:
         json.dump(ev, fh, indent=1)
     for ln in lines:
         print(ln)
